@@ -17,6 +17,7 @@ type GType struct {
 	Set *GType     // set[Elem]
 	Loc bool       // term is a Ref to a struct of type T living in the heap
 	Unt bool       // untyped integer constant
+	Math bool      // mathematical integer (spec only)
 }
 
 type Val struct {
